@@ -99,6 +99,9 @@ def mon_aborts(run, script, il, iab, ml):
         n = len([l for l in il if not l.startswith('!') and not l.startswith('#')])
         last = script_op_at(script, n)
         run.violation('undefined behaviour / memory error in `%s`: %s' % (last, iab), script, {'abort': iab, 'op': last})
+    mcap = re.search(r'\[cap(\d+)\]', script[0] if script else '')
+    cap = int(mcap.group(1)) if mcap else 2047
+    prev_h = {}
     for l in il:
         if is_op(l):
             f = fields(l)
@@ -106,6 +109,19 @@ def mon_aborts(run, script, il, iab, ml):
                 run.cov['monitor_checks'] += 1
                 if c['kind'] == 'rx' and len(c['data']) != 2 * c['len']:
                     run.violation('receive callback length %d exceeds the packet buffer (%d bytes available) in %s' % (c['len'], len(c['data']) // 2, f['op']), script)
+            # every FSK/OOK FIFO burst comes out of device->packet: it cannot be longer than the
+            # buffer (sanitizers do not see an over-read that stays inside the handle struct)
+            am = int(prev_h.get('am', '80'), 16)
+            if f['op'] in ('fsk_ook_tx_set_for_transmission', 'fsk_ook_tx_set_for_transmission_with_address', 'fsk_ook_tx_start_beacon') or (f['op'] == 'irq' and am in (FSK, OOK)):
+                # (a burst inside an invocation that also ran a callback may belong to a call the
+                # application made from the callback: offset 0)
+                off = int(prev_h.get('rcv', '0')) if f['op'] == 'irq' and not f.get('cb') else 0
+                for e in spi_entries(f.get('spi')):
+                    if e['kind'] == 'WB' and e['reg'] == 0:
+                        run.cov['monitor_checks'] += 1
+                        if off + e['n'] > cap:
+                            run.violation('%s sent %d bytes from offset %d of the %d-byte packet buffer to the FIFO' % (f['op'], e['n'], off, cap), script, {'line': l})
+            prev_h = handle_of(f) or prev_h
 
 def script_op_at(script, n):
     """the n-th executed line (0-based) of a script, counting the lines that produce output"""
